@@ -63,6 +63,8 @@ def valid_models(repo):
     ("pymath in a formula", pair_model().replace("A/r + B", "A*pymath.exp(-r) + B*pymath.sqrt(r + 1)")),
     ("EAM with zero filled species", eam_model(body=EAM_BODY.replace("B : as.sqrt -1.0\n", ""))),
     ("species with integer mass", eam_model(body=EAM_BODY.replace("A.atomic_mass : 1.0", "A.atomic_mass : 12"))),
+    ("block syntax in a formula", pair_model().replace("A/r + B", "if (r < 1.5) { A/r + B } else { B }")),
+    ("modulus and comparison operators in a formula", pair_model().replace("A/r + B", "(A % 3)/r + B*(r >= 1)")),
     ("key spacing", pair_model().replace("A-B :", "A - B =").replace("f(r, A, B) =", "f( r,A , B ) :")),
   ]
   return out
@@ -153,6 +155,13 @@ def malformed(repo):
     ("formula calling an unknown function", P.replace("A/r + B", "A/r + nosuch(B)")),
     ("formula calling a form with the wrong arity", P.replace("A/r + B", "A/r + as.buck(r, B)")),
     ("empty formula", P.replace("A/r + B", "")),
+    # formulae holding characters that are special to python's own string formatting ({} and %)
+    ("block formula with an undefined symbol", P.replace("A/r + B", "if (r < 1.5) { A/r + C } else { B }")),
+    ("unbalanced block formula", P.replace("A/r + B", "if (r < 1.5) { A/r + B } else { B ")),
+    ("block formula calling a form with the wrong arity", P.replace("A/r + B", "if (r < 1.5) { as.buck(r, B) } else { B }")),
+    ("empty braces and an undefined symbol", P.replace("A/r + B", "if (r < 1.5) {} else { C }")),
+    ("modulus formula with an undefined symbol", P.replace("A/r + B", "(A % 3)/r + C % 2")),
+    ("modulus formula calling an unknown function", P.replace("A/r + B", "A %s r + nosuch(%d)")),
   ]
   g["table-form"] = [
     ("x without y", P.replace("y : 6 5 4 3 2 1 0\n", "")),
